@@ -301,6 +301,22 @@ def check_facts(facts):
                 new.append("%s: unaccounted site(s) %s" % (fn, extra[:3]))
     if new:
         return "unaccounted panic-capable sites: " + "; ".join(new[:5])
+    return check_calls(facts)
+
+
+def check_calls(facts):
+    """guards that several functions have to call for a repair to hold: the regenerated table of who calls them against the
+    reviewed extract/calls.expected.json (a guard dropped from one of two cooperating sites is proof-broken)"""
+    import os
+    from .. import common as C
+    exp_path = os.path.join(C.EXTRACT, "calls.expected.json")
+    if not os.path.exists(exp_path):
+        return None
+    exp = json.load(open(exp_path))
+    got = facts.get("calls") or {}
+    gone = ["%s no longer calls %s" % (fn, g) for fn, gs in sorted(exp.items()) for g in gs if g not in (got.get(fn) or [])]
+    if gone:
+        return "cooperating guard sites changed: " + "; ".join(gone[:5])
     return None
 
 
